@@ -64,6 +64,16 @@ var commonAssume = []string{
 }
 
 var props = map[string]*propCfg{
+	"C10": {
+		Title:    "optimisation and user-defined functions never change an expression's value (also concurrently; time live/delta not frozen)",
+		Quick:    tierCfg{Runs: 5000, Chunk: 160, RaceRuns: 320, DetRuns: 48, ShrinkSec: 60},
+		Thorough: tierCfg{Runs: 400000, Chunk: 2000, RaceRuns: 24000, DetRuns: 256, ShrinkSec: 240},
+		Rule: "one evaluation = one simulated pipeline run (1-4 workers sharing one compiled, optimised expression and its context pools) whose extract template is drawn from a tree generator over the registered function table (all helpers except load/lookup/haskey/color; arities 1-4; constant, dynamic {0}..{3}/{name}/{src}/{line}/{@} and nested arguments to depth 3), or calls a function loaded through the real funcs-file loader (1-3 generated definitions over scalar helpers, later ones calling earlier ones, comments, blank lines, backslash continuations), or is {time live|delta|now} with whole fake seconds passing between reads; templates that do not compile in both forms or panic on a line are redrawn (C08's subject); every emitted key is compared with a sequential un-optimised evaluation (funcs files: of the inlined tree built with builtins only); leg B re-runs the same worlds free-running under the race detector; " +
+			"distinct_nontrivial = distinct schedule hashes among runs with >= 1 matching line and >= 2 goroutines runnable at >= 1 decision",
+		Real:  []string{"pkg/expressions (compiler, optimiser, stage analysis)", "pkg/expressions/stdlib (all helpers)", "pkg/expressions/funcfile", "pkg/expressions/funclib", "pkg/slicepool", "pkg/extractor + batchers"},
+		Stubs: []string{"goroutine scheduling (tape; leg B: the real Go scheduler under -race)", "clock (synctest fake clock)", "stdin (scripted reader)", "read chunking/latency (fs seam)"},
+		Assume: []string{"interleavings inside one helper evaluation are not schedulable (no visible operation there): a pooled object handed to two workers at once shows up in leg B as a data race, not in leg A"},
+	},
 	"C13": {
 		Title:    "output ordering is a deterministic function of the aggregated data (order-independence clauses)",
 		Quick:    tierCfg{Runs: 1000, Chunk: 32, DetRuns: 24, ShrinkSec: 90},
